@@ -256,6 +256,44 @@ def r2(ctx, retsets):
             ctx.check(good, "C02.R2", "%s:lookup-key" % f.name, c.loc(), "exact lookup by (%s, %s)" % (vf.show(a[0]), vf.show(a[1])), key="C02.R2:%s:key" % f.name)
 
 
+def r2_shift(ctx):
+    """deleting an element closes the gap without losing or duplicating a neighbour"""
+    pdb = ctx.pdb
+    fn = pdb.fn("pfx_table_del_elem")
+    ctx.touch(fn)
+    ARY = ("load", ("fld", ("arg", 0), "node_data.ary"))
+    LEN = ("load", ("fld", ("arg", 0), "node_data.len"))
+    esz = pdb.struct("data_elem")["size"]
+    moves = []
+    for c in fn.calls():
+        if not (c.callee or "").startswith(("llvm.memcpy", "llvm.memmove", "memmove", "memcpy")):
+            continue
+        d, s_ = vf.expr(fn, c.args[0]), vf.expr(fn, c.args[1])
+        if d[0] == "ptradd" and s_[0] == "ptradd" and d[1] == ARY and s_[1] == ARY:
+            moves.append((c, d[2], s_[2], vf.expr(fn, c.args[2])))
+    # element-wise stores (field by field) would show up as stores through ary[i]; the struct copy is a memcpy at -O0
+    if not moves:
+        raise AnalysisBroken("pfx_table_del_elem: the move that closes the gap was not found")
+    good = True
+    detail = []
+    for c, di, si, n in moves:
+        loops = [L for L in es.index_loops(fn) if es.in_loop_body(L, c)]
+        if loops:
+            L = loops[0]
+            i = ("phi", L["phi"].id)
+            asc = vf.expr(fn, L["init"]) == ("arg", 1) and L["bound"] == ("bin", "sub", LEN, ("c", 1))
+            ok = di == i and si == ("bin", "add", i, ("c", 1)) and asc and n == ("c", esz)
+            detail.append("loop i=index..len-2: ary[%s] <- ary[%s]" % (vf.show(di), vf.show(si)))
+        else:
+            # one block move: the tail [index+1, len) to index, with an overlap-safe primitive
+            ok = "memmove" in c.callee and di == ("arg", 1) and si == ("bin", "add", ("arg", 1), ("c", 1)) and \
+                vf.mentions(n, lambda x: x == LEN) and vf.mentions(n, lambda x: x == ("arg", 1)) and vf.mentions(n, lambda x: x == ("c", esz))
+            detail.append("%s(ary+%s, ary+%s, %s)" % (c.callee.split(".")[1] if "." in c.callee else c.callee, vf.show(di), vf.show(si), vf.show(n)))
+        good = good and ok
+    ctx.check(good, "C02.R2", "del_elem:gap-closed-in-ascending-order", moves[0][0].loc(),
+              "; ".join(detail) + " (each slot from index on receives its successor before that successor is overwritten)", key="C02.R2:del_elem:shift")
+
+
 def r3(ctx, retsets):
     pdb = ctx.pdb
     ctx.rule("C02.R3", "removal by source: an element is deleted iff its source equals the socket argument; after a deletion the same "
@@ -629,6 +667,7 @@ def check(ctx):
     retsets = flow.return_sets(ctx.pdb)
     r1(ctx)
     r2(ctx, retsets)
+    r2_shift(ctx)
     r3(ctx, retsets)
     r4(ctx)
     r5(ctx)
